@@ -887,8 +887,13 @@ def evaluate(case, r):
             cands.append(inf)
     elif nat != 'none':
         cands.append(nat)
-    if case.get('names_bad') and not any(t.startswith('cvt:names=0') or t.startswith('cvt:names=3') for t, _ in case.get('all_opts', [])):
-        cands.append(('names', 'readError', None))
+    if case.get('names_bad'):
+        mode = '1'                           # cvt:names: the last assignment wins; 0 and 3 do not read the files
+        for t, _ in case.get('all_opts', []):
+            if t.startswith('cvt:names='):
+                mode = t.split('=', 1)[1]
+        if mode in ('1', '2'):
+            cands.append(('names', 'readError', None))
     if case.get('inject'):
         cands.append(case['inject'])
     fault = min(cands, key=lambda f: STAGES.index(f[0])) if cands else None
